@@ -79,7 +79,7 @@ def canon_ops(detail):
 
 def canon_impl_event(name, detail):
     """Implementation event -> the text the Lean driver prints for the same event."""
-    if name in ("vm.pin", "vm.unpin", "vm.commitA", "cp.table", "cp.locked", "rd.batch", "vac.unlinked"):
+    if name in ("vm.pin", "vm.unpin", "vm.commitA", "cp.table", "cp.locked", "rd.batch", "scan.batch", "vac.unlinked"):
         return "%s %s" % (name, detail)
     if name == "vm.commit.begin":
         return "%s %s" % (name, canon_ops(detail))
@@ -348,6 +348,9 @@ EXHAUSTIVE_TEMPLATES = [
     # reader vs DROP TABLE vs vacuum
     "(case e2 (gate cmd.begin txn.lock.begin txn.pinned vm.commit.begin vm.committed ddl.drop.applied vac.find vac.unlinked rd.open rd.batch)"
     " (setup create:t1 ins:t1:1+2) (actors (read:t1:4) (drop:t1) (vacuum)) (sched ) (rng 0) (sticky 0) (script ))",
+    # an executor-level scan (Database::run) streaming two batches vs a compaction pass and a vacuum pass
+    "(case e3 (gate cmd.begin scan.batch vm.commit.begin vm.committed vac.find vac.unlinked)"
+    " (setup create:t1 ins:t1:1+2 ins:t1:3) (actors (sel:t1) (compact) (vacuum)) (sched ) (rng 0) (sticky 0) (script ))",
 ]
 
 
@@ -382,6 +385,25 @@ def reader_oracle(trace):
     return bad
 
 
+def scan_pin_oracle(trace):
+    """Executor-level scans (`TableScanExecutor` inside `Database::run`): every batch must be
+    fetched while the scan's read transaction still holds its version pin (pin from before the
+    scan is opened to the end of the stream), and no pass / session may die.  Model-free: only
+    the order of the implementation's own `vm.pin` / `scan.batch` / `vm.unpin` events per thread."""
+    bad = []
+    pins = {}
+    for i, (a, th, name, detail) in trace.events():
+        if name == "vm.pin":
+            pins[(a, th)] = pins.get((a, th), 0) + 1
+        elif name == "vm.unpin":
+            pins[(a, th)] = pins.get((a, th), 0) - 1
+        elif name == "scan.batch" and pins.get((a, th), 0) <= 0:
+            bad.append({"step": i, "actor": a, "thread": th, "what": "scan batch of %s rows fetched after the scan's pin was released" % detail})
+        elif name == "panic" or (name == "cmd.done" and detail == "panic"):
+            bad.append({"step": i, "actor": a, "thread": th, "what": "a pass or session died: %s" % detail})
+    return bad
+
+
 def nontrivial_overlap(trace):
     """A schedule is non-trivial when some reader had another actor's commit or unlink between
     its pin and its end."""
@@ -393,7 +415,7 @@ def nontrivial_overlap(trace):
             continue
         if name == "cmd.begin":
             cur[a] = detail
-        if name == "txn.pinned" and th == 0 and cur.get(a, "").startswith("read:"):
+        if name == "txn.pinned" and ((th == 0 and cur.get(a, "").startswith("read:")) or (th != 0 and cur.get(a, "").startswith("sel:"))):
             open_readers.add(a)
         elif name == "cmd.done":
             open_readers.discard(a)
@@ -464,6 +486,12 @@ def run(ck):
             orc["disagree"] += 1
             ck.report("reader:snapshot-or-file", "a reader did not see its start snapshot / a pinned file was unlinked: %s" % json.dumps(bad[0]),
                       replay={"case": c, "problems": bad, "trace": t.line})
+        sp = scan_pin_oracle(t)
+        if sp:
+            orc["disagree"] += 0 if bad else 1
+            sig = "scan:batch-after-unpin" if "fetched after" in sp[0]["what"] else "bg:pass-or-session-died"
+            ck.report(sig, "executor-level scan / background pass: %s" % json.dumps(sp[0]),
+                      replay={"case": c, "problems": sp, "trace": t.line})
         if t.deadlock != "none":
             ck.report("sched:deadlock", "schedule did not finish: %s" % t.deadlock, replay={"case": c, "trace": t.line})
         cnt["compared"] += 1
